@@ -1,6 +1,6 @@
-\* thorough: reads over {A,C,G,T} up to length 6
+\* thorough: reads over {A,C,G} up to length 6
 CONSTANTS
-  Alphabet = {65, 67, 71, 84}
+  Alphabet = {65, 67, 71}
   MaxLen = 6
   Pool = {1, 2, 3, 4, 5, 6, 7, 8, 9}
 SPECIFICATION Spec
